@@ -335,3 +335,75 @@ func Verif_C16_two_adders() {
 	e.check("end")
 	verifReach("done")
 }
+
+// H16e: a slow consumer. The first batch (flushed by the size/byte threshold)
+// is still held by the execute function on the flusher goroutine while further
+// tasks are added; the held batch must keep exactly the tasks it was given, in
+// order, and every task must still be executed exactly once.
+func Verif_C16_slow_consumer() {
+	kind := verifCase(2) // 0 bulk (2 tasks per batch), 1 chunk (10 bytes per batch, tasks of 5 bytes)
+	gate := make(chan struct{})
+	entered := make(chan struct{}, 1)
+	var batches [][]int
+	first := true
+	exec := func(tasks []any) {
+		if first {
+			first = false
+			entered <- struct{}{}
+			<-gate // the consumer is slow: it keeps its batch while more tasks arrive
+		}
+		b := []int{}
+		for _, t := range tasks {
+			id, _ := t.(int)
+			b = append(b, id)
+		}
+		batches = append(batches, b)
+	}
+	var tk *verifTicker
+	newTicker := func(d time.Duration) timex.Ticker {
+		tk = &verifTicker{c: make(chan time.Time, 1)}
+		return tk
+	}
+	var add func(id int)
+	var pe *PeriodicalExecutor
+	if kind == 0 {
+		be := NewBulkExecutor(exec, WithBulkTasks(2), WithBulkInterval(verifInterval))
+		pe = be.executor
+		add = func(id int) { be.Add(id) }
+	} else {
+		ce := NewChunkExecutor(exec, WithChunkBytes(10), WithFlushInterval(verifInterval))
+		pe = ce.executor
+		add = func(id int) { ce.Add(id, 5) }
+	}
+	pe.newTicker = newTicker
+	add(0)
+	add(1) // threshold reached: the batch [0 1] goes to the flusher
+	<-entered
+	// one further task while the first batch is held (a second one would reach the
+	// threshold again, and Add rightly blocks until the busy flusher takes the batch)
+	extra := 1
+	for i := 0; i < extra; i++ {
+		add(2 + i)
+	}
+	verifYield()
+	close(gate)
+	verifYield()
+	pe.Wait()
+	verifYield()
+	verifAssert(len(batches) >= 2, "slow consumer: the later tasks are executed too")
+	if len(batches) >= 1 {
+		verifAssert(len(batches[0]) == 2 && batches[0][0] == 0 && batches[0][1] == 1, "slow consumer: a batch handed to execute keeps exactly its tasks, in order, while later tasks are added")
+	}
+	count := make([]int, 2+extra)
+	for _, b := range batches {
+		for _, id := range b {
+			if id >= 0 && id < len(count) {
+				count[id]++
+			}
+		}
+	}
+	for id := range count {
+		verifAssert(count[id] == 1, "slow consumer: every task is executed exactly once")
+	}
+	verifReach("slow-consumer")
+}
